@@ -219,10 +219,66 @@ class Check:
         return 0
 
 
+def binding_selftest(chk: Check, trace_module: str, traces: List[Dict[str, Any]], res: Dict[str, Any], n: int = 4):
+    """Vacuity / binding test of a trace specification: corrupt accepted implementation traces (flip one logged
+    field, drop one event, swap two adjacent events) and require that TLC rejects at least one corruption of each
+    kind it could apply.  A trace spec that accepts everything is a machinery failure, not a pass."""
+    import copy as _copy
+
+    from . import tlc as _tlc
+
+    good = [t for t, (reached, length) in zip(traces, res["results"]) if reached == length + 1 and len(t["ev"]) >= 2]
+    good = sorted(good, key=lambda t: -len(t["ev"]))[:n]
+    if not good:
+        return
+    rng = random.Random(chk.seed)
+    mutants, kinds = [], []
+    for t in good:
+        ev = t["ev"]
+        # (a) flip one logged field of one event
+        for _ in range(3):
+            m = _copy.deepcopy(t)
+            e = m["ev"][rng.randrange(len(ev))]
+            keys = [k for k, v in e.items() if k != "ev" and isinstance(v, (bool, int, str))]
+            if not keys:
+                continue
+            k = rng.choice(keys)
+            v = e[k]
+            e[k] = (not v) if isinstance(v, bool) else (v + 1 if isinstance(v, int) else v + "_zz")
+            mutants.append({"cfg": m["cfg"], "ev": m["ev"]})
+            kinds.append("flip")
+        # (b) drop one event
+        m = _copy.deepcopy(t)
+        del m["ev"][rng.randrange(len(ev) - 1)]
+        mutants.append({"cfg": m["cfg"], "ev": m["ev"]})
+        kinds.append("drop")
+        # (c) swap two adjacent different events
+        for i in range(len(ev) - 1):
+            if ev[i] != ev[i + 1]:
+                m = _copy.deepcopy(t)
+                m["ev"][i], m["ev"][i + 1] = m["ev"][i + 1], m["ev"][i]
+                mutants.append({"cfg": m["cfg"], "ev": m["ev"]})
+                kinds.append("swap")
+                break
+    r = _tlc.validate(trace_module, mutants)
+    rej: Dict[str, List[int]] = {}
+    for k, (reached, length) in zip(kinds, r["results"]):
+        rej.setdefault(k, [0, 0])
+        rej[k][1] += 1
+        if reached != length + 1:
+            rej[k][0] += 1
+    chk.cov.setdefault("binding_selftest", {})[trace_module] = {k: f"{a}/{b} corrupted traces rejected" for k, (a, b) in rej.items()}
+    if sum(a for a, b in rej.values()) == 0:
+        raise RuntimeError(f"binding self-test: {trace_module} accepted every corrupted trace (vacuous trace specification)")
+
+
 def judge_traces(chk: Check, module: str, traces: List[Dict[str, Any]], res: Dict[str, Any],
                  sig_fn: Callable[[Dict[str, Any], Dict[str, Any], Dict[str, Any]], Dict[str, Any]],
-                 label: str = ""):
-    """Turn TLC's per-trace results into violations / coverage."""
+                 label: str = "", selftest: Optional[str] = None):
+    """Turn TLC's per-trace results into violations / coverage.  `selftest` = name of the trace module: also run
+    the binding self-test on accepted traces."""
+    if selftest:
+        binding_selftest(chk, selftest, traces, res)
     chk.cov["states"] += res["distinct"]
     chk.cov["transitions"] += res["states"]
     per_event: Dict[str, int] = chk.cov.setdefault("impl_events", {})
